@@ -24,7 +24,7 @@
    What the theorems do not cover is the implementation itself: that is the correspondence (complete traces, bytes and
    ticks, model versus real stack) and the extracted check_C15 on every run. *)
 From PS Require Import Lib.Base Generated.Consts Model.SdTypes Model.Config Model.Session Model.Someip Model.SdCodec Model.StackTypes Model.Stack
-  Model.StackIO Spec.AnnSpec Proofs.QueueProofs Proofs.WorldInv Proofs.WorldTime Proofs.WorldDone Proofs.WorldDeadline Proofs.WorldLog Proofs.WorldLogTime Proofs.SdMsgProofs Proofs.WireProofs.
+  Model.StackIO Spec.AnnSpec Proofs.QueueProofs Proofs.WorldInv Proofs.WorldTime Proofs.WorldDone Proofs.WorldDeadline Proofs.WorldLog Proofs.WorldLogTime Proofs.SdMsgProofs Proofs.WireProofs Model.Skel Generated.LogicGen Proofs.GenSkel.
 
 Theorem C15_conservation : forall ops s d, QInv s ->
   sent_for d (snd (q_run s ops)) ++ pending_for (fst (q_run s ops)) d = pending_for s d ++ queued_for d ops.
@@ -175,6 +175,17 @@ Example C15_unencodable_examples :
   /\ unencodable (mkEntry ET_OfferService 4369 74565 1 3 0 [] [] None) = true.
 Proof. vm_compute. split; reflexivity. Qed.
 
+(* ServiceAnnouncer.queue_send is the control flow translated from the source text of sd.py on every run: the zero-timeout
+   bypass, the collector looked up under the destination AS GIVEN, a new collector (whose timeout is armed then) when none is
+   open, the entry appended - in every state the ownership invariant holds in (collector ids are timer ids) *)
+Theorem C15_queue_send_is_the_translated_source : forall X e remote w, GP X w ->
+  let wg := ghost (GQueue e remote) w in
+  queue_send e remote w
+  = fold_left (run_qact e remote)
+      (gen_queue_send (t_collect (cfg w) =? 0) (match open_coll_of remote wg with Some _ => true | None => false end)) wg.
+Proof. intros X e remote w Hg. apply queue_send_is_the_translated_source. apply (g_collfresh X w Hg). Qed.
+
+Print Assumptions C15_queue_send_is_the_translated_source.
 Print Assumptions C15_conservation.
 Print Assumptions C15_conservation_on_the_stack.
 Print Assumptions C15_wire_is_the_history.
